@@ -136,6 +136,11 @@ def run(ctx):
                                       ([(0, 1), (0, 1)], [1.25, 1.25], [True, True], [0, 1], 3),
                                       ([(0, 1), (1, 2), (2, 0)], [1.0 + 1e-9 / 3] * 3, [False] * 3, [0, 1, 2], 4),
                                       ([(0, 1), (0, 1)], [1.5, 1.5], [True, False], [0, 1], 2),
+                                      # JUST OUTSIDE the near-one window of the inversion (1e-8 < |dod - 1| < 1e-6): the ordinary branch, with shape dod
+                                      ([(0, 1), (1, 2), (2, 0)], [(2.5 + 4e-7) / 3] * 3, [False] * 3, [0, 1, 2], 3),
+                                      ([(0, 1), (1, 2), (2, 0)], [(2.5 - 4e-7) / 3] * 3, [False] * 3, [0, 1, 2], 3),
+                                      ([(0, 1), (0, 1)], [1.0 + 4.5e-8, 1.0], [True, True], [0, 1], 2),
+                                      ([(0, 1), (0, 1)], [1.0 - 9e-7, 1.0], [True, True], [0, 1], 2),
                                       # small degrees of divergence: the iteration fails (GammaError) on whole windows of p
                                       ([(0, 1), (0, 1)], [0.78, 0.78], [True, True], [0, 1], 3),      # dod 0.06
                                       ([(0, 1), (0, 1)], [0.775, 0.775], [True, True], [0, 1], 3),    # dod 0.05
@@ -149,7 +154,7 @@ def run(ctx):
         routing = S.make_routing(ctx.rng, c, "fundamental")
         small_dod = float(c["dod"]) < 0.2
         near_one = abs(float(c["dod"]) - 1) < 1e-6
-        for kind in ("uniform", "uniform", "corner", "edge1") + (("lambda_grid",) * 40 + ("lambda_tiny",) * 6 if small_dod else ()) + (("lambda_edge",) * 8 if near_one else ()):
+        for kind in ("uniform", "uniform", "corner", "edge1") + (("lambda_grid",) * 40 + ("lambda_tiny",) * 6 if small_dod else ()) + (("lambda_edge",) * 8 + ("lambda_grid",) * 12 if near_one else ()):
             xs = S.point(ctx.rng, b["numVars"], "uniform" if kind in ("lambda_grid", "lambda_edge", "lambda_tiny") else kind)
             if kind == "lambda_tiny":
                 # quantiles in the SUBNORMAL range (dod ~ 0.05..0.09, coordinate ~1e-16): a positive finite lambda, used as it is
